@@ -67,6 +67,31 @@ def judge(rec, props: tuple, case: dict, *, want=None, extra=None, key=None, sli
                           + (again if isinstance(again, str) else "a second reading of the same attributes shows other data than the first"),
                           rcase, "chart-sequences-not-stable")
             return out, None, None
+    if len(case["text"]) < 20000 and len(case["text"]) % 3 == 0:
+        # the chart as seen through the standard copy protocols: a deep copy and a pickle round trip show the very data the
+        # original shows (whether a chart CAN be copied is not stated: a refusal is skipped; a copy that shows other data is not)
+        import copy
+        import pickle
+
+        for how, fn in (("copy.deepcopy", copy.deepcopy), ("a pickle round trip", lambda c_: pickle.loads(pickle.dumps(c_)))):
+            try:
+                dup = fn(out.chart)
+            except Exception:  # noqa
+                rec.mon("copy_refused")
+                continue
+            try:
+                same = harness.obs(dup) == ob
+            except Exception as e:  # noqa
+                same = f"reading the copy raised {harness.exc_str(e)}"
+            rec.ev()
+            rec.mon("copies_observed")
+            if same is not True:
+                dd = model.compare(case["truth"], harness.obs(dup)) if same is False else None
+                mine_ = select(dd, props, extra) if dd is not None else []
+                if same is not False or mine_:
+                    rec.violation("copy-differs", f"{how} of the returned chart shows other data than the chart itself: "
+                                  + (same if isinstance(same, str) else mine_[0][2]), dict(rcase, copied=how), "copy-shows-other-data")
+                    return out, None, None
     d = model.compare(case["truth"], ob)
     n = sum(d.evals.get(p, 0) for p in props)
     rec.ev(n)
